@@ -87,7 +87,8 @@ void run_history(Run &R, int maxops) {
       arm(); s.init(); s.start(); bool h = done(); s.clear_tx();
       VLOG(c, "restart%s", h ? "   (NVM fault injected)" : "");
       if (h) CHECK(c, s.init_err != CO_ERR_NONE, "short-read-surfaced", "a short NVM read during the restart was not reported as node error");
-      else { for (int i = 1; i <= ng; i++) CHECK(c, ram_equals_nvm(i), "restart-reloads-last-image", "after a restart group %d does not equal the last successfully stored image", i); if (stored) R.stored_then_restart = true; }
+      else { CHECK(c, s.init_err == CO_ERR_NONE, "no-spurious-node-error", "a restart without NVM fault reported node error %d", s.init_err);
+        for (int i = 1; i <= ng; i++) CHECK(c, ram_equals_nvm(i), "restart-reloads-last-image", "after a restart group %d does not equal the last successfully stored image", i); if (stored) R.stored_then_restart = true; }
       CONodeGetErr(s.node);
     } else if (op == 4) { // NMT reset node / communication: reloads the groups of that reset type
       bool node_reset = c.t.coin();
@@ -97,7 +98,8 @@ void run_history(Run &R, int maxops) {
       arm(); s.rx(Frame::mk(0, 2, {(uint8_t)(node_reset ? 129 : 130), 0})); bool h = done(); s.clear_tx();
       VLOG(c, "NMT reset %s%s", node_reset ? "node" : "communication", h ? "   (NVM fault injected)" : "");
       if (h) CHECK(c, CONodeGetErr(s.node) != CO_ERR_NONE, "short-read-surfaced", "a short NVM read during an NMT reset was not reported as node error");
-      else for (int i = 1; i <= ng; i++) {
+      else { CO_ERR ne = CONodeGetErr(s.node); CHECK(c, ne == CO_ERR_NONE, "no-spurious-node-error", "an NMT reset %s without NVM fault reported node error %d", node_reset ? "node" : "communication", ne); }
+      if (!h) for (int i = 1; i <= ng; i++) {
         bool reload = node_reset || g[i].type == CO_RESET_COM;
         if (reload) CHECK(c, ram_equals_nvm(i), "reset-reloads-type", "NMT reset %s did not reload group %d (reset type %d) from NVM", node_reset ? "node" : "communication", i, g[i].type);
         else CHECK(c, !memcmp(g[i].ram, rb[i].data(), g[i].size), "reset-reloads-type", "NMT reset communication reloaded group %d of reset type 'node'", i);
@@ -134,7 +136,7 @@ Registrar reg(Prop{
     "C17",
     "Cases: 1..4 parameter groups (size 1..64, non-overlapping NVM offsets with gaps, reset type node/communication, enable flags from {disabled, on command, autonomously, both}: store-on-command is bit 0) behind 1010h/1011h sub-indices 2..n+1 plus the 'all' sub-index 1, random RAM and NVM images; histories of RAM modifications, SDO writes to 1010h/1011h with right and wrong signatures, restarts (RAM lost, NVM kept), NMT reset node/communication and reads. "
     "Mode fault-enum: each generated history of <= 12 (24) ops is first run without fault to count its NVM driver calls N and is then re-run once for EVERY fault position k = 1..N (k-th NVM call returns a short count); mode random: longer histories with a random fault position. "
-    "Oracle: reference model of RAM, NVM and verdicts: 'save' writes exactly the addressed enabled groups (byte-exact NVM compare), 'load' calls COParaDefault for exactly those, other values refused with RAM and NVM byte-identical, after restart/reset the groups of the right type equal the last successfully stored image, a short count yields an SDO abort (store) or a node error (load); in the fault step itself only the error signal is required. "
+    "Oracle: reference model of RAM, NVM, verdicts and node error (set after a step with a short count, none after a fault-free restart or reset): 'save' writes exactly the addressed enabled groups (byte-exact NVM compare), 'load' calls COParaDefault for exactly those, other values refused with RAM and NVM byte-identical, after restart/reset the groups of the right type equal the last successfully stored image, a short count yields an SDO abort (store) or a node error (load); in the fault step itself only the error signal is required. "
     "Non-trivial: a successful store followed by a restart/reset, or a fault position that was hit. evaluations counts generated histories; every fault-enum history additionally executes N faulted replays (class fault-position-executed). Distinct = distinct decoded choice sequence.",
     {Mode{"fault-enum", case_faultenum, false, 300000, 4000000, 12, 24, 200, 300},
      Mode{"random", case_random, false, 800000, 12000000, 0, 0, 260, 400}},
